@@ -8,6 +8,7 @@ git -C /repo worktree add -q --detach $W HEAD || exit 2
 cd /verif
 for d in seeded/*/; do
   n=$(basename $d)
+  if [ -n "$SEED_FILTER" ] && ! echo "$n" | grep -Eq "$SEED_FILTER"; then continue; fi
   [ -f $d/meta.json ] || { echo "$n: no meta.json"; continue; }
   props=$(python3 -c "import json,re;m=json.load(open('$d/meta.json'));print(' '.join(dict.fromkeys(re.findall(r'C[0-9][0-9]', ' '.join(m.get('detected_by') or [m['property']])))))")
   git -C $W apply /verif/$d/patch.diff || { echo "$n: patch does not apply"; continue; }
